@@ -453,6 +453,121 @@ fn expected_messages<B: SField, E: winter_math::FieldElement<BaseField = B>, H: 
     Ok(msgs)
 }
 
+/// C04, "the coin has absorbed the proof context": the seed elements of contexts that differ in at least one parameter must
+/// differ (the layout itself is not prescribed by the property; Trace_Stark compares it with the documented one as a note).
+/// The contexts: the proof's own, and families around it in which one group of parameters takes several values at once
+/// (parameters that share a seed element must not alias): segment widths x auxiliary random elements, trace length,
+/// metadata edits, extension x folding factor x remainder degree, queries x blowup x grinding, the field modulus.
+fn seed_binding<B: SField>(sc: &Scenario) -> Vec<Value> {
+    use std::collections::BTreeMap;
+    use winter_air::{proof::Context, TraceInfo};
+    use winter_math::{StarkField, ToElements};
+    use winter_utils::Serializable;
+    let sh = &sc.shape;
+    let o = &sc.opts;
+    // (main width, aux width, aux rands, length, metadata, queries, blowup, grinding, extension, folding, remainder, field)
+    type P = (usize, usize, usize, usize, Vec<u8>, usize, usize, u32, u32, usize, usize, u8);
+    let base: P = (sh.width, sh.aux_width(), sh.aux_rands, sh.n, sh.meta.clone(), o.q, o.blowup, o.grind, sc.ext, o.fold, o.rem, 0);
+    let mut ps: Vec<P> = vec![base.clone()];
+    for w in [1usize, 2, base.0, base.0 + 1] {
+        for aw in [0usize, 1, 2, base.1] {
+            for ar in [0usize, 1, 2, base.2, 255] {
+                if w + aw <= 255 && (aw > 0 || ar == 0) {
+                    let mut p = base.clone();
+                    (p.0, p.1, p.2) = (w, aw, ar);
+                    ps.push(p);
+                }
+            }
+        }
+    }
+    for n in [base.3 * 2, base.3 / 2, base.3 * 256] {
+        if n >= 8 {
+            let mut p = base.clone();
+            p.3 = n;
+            ps.push(p);
+        }
+    }
+    let mut metas: Vec<Vec<u8>> = vec![];
+    if !base.4.is_empty() {
+        let mut m = base.4.clone();
+        let k = m.len() - 1;
+        m[k] ^= 0x55;
+        metas.push(m);
+        let mut m = base.4.clone();
+        m[0] ^= 1;
+        metas.push(m);
+    }
+    if base.4.len() < 65535 {
+        let mut m = base.4.clone();
+        m.push(7);
+        metas.push(m);
+    }
+    for m in metas {
+        let mut p = base.clone();
+        p.4 = m;
+        ps.push(p);
+    }
+    for e in [1u32, 2, 3] {
+        for f in [2usize, 4, 8, 16] {
+            for r in [0usize, 1, 3, 7, 15, 31, 63, 127, 255] {
+                let mut p = base.clone();
+                (p.8, p.9, p.10) = (e, f, r);
+                ps.push(p);
+            }
+        }
+    }
+    for q in [base.5, if base.5 < 255 { base.5 + 1 } else { 254 }, 1, 255] {
+        for b in [2usize, 4, 8, 16, 128] {
+            for g in [0u32, 1, 2, 4, 8, 16, 32, base.7] {
+                let mut p = base.clone();
+                (p.5, p.6, p.7) = (q, b, g);
+                ps.push(p);
+            }
+        }
+    }
+    if B::ELEMENT_BYTES == 8 {
+        let mut p = base.clone();
+        p.11 = 1;
+        ps.push(p);
+    }
+    ps.sort();
+    ps.dedup();
+    let is62 = B::get_modulus_le_bytes() == f62::BaseElement::get_modulus_le_bytes();
+    let seed_of = |p: &P| -> Vec<u8> {
+        let ti = TraceInfo::new_multi_segment(p.0, p.1, p.2, p.3, p.4.clone());
+        let op = ProofOptions::new(p.5, p.6, p.7, ext_of(p.8), p.9, p.10);
+        // field 1 = the other 8-byte field
+        let ctx = match (p.11, is62) {
+            (0, _) => Context::new::<B>(ti, op),
+            (_, true) => Context::new::<f64::BaseElement>(ti, op),
+            (_, false) => Context::new::<f62::BaseElement>(ti, op),
+        };
+        let e: Vec<B> = ToElements::<B>::to_elements(&ctx);
+        let mut v = Vec::new();
+        for x in e {
+            x.write_into(&mut v);
+        }
+        v
+    };
+    let mut seen: BTreeMap<Vec<u8>, P> = BTreeMap::new();
+    let mut out = vec![];
+    let mut n = 0usize;
+    for p in ps.iter() {
+        if let Ok(sd) = guarded(|| seed_of(p)) {
+            n += 1;
+            if let Some(q) = seen.get(&sd) {
+                if out.len() < 4 {
+                    out.push(json!({"param": format!("{:?} and {:?} (main width, aux width, aux rands, length, metadata, queries, blowup, grinding, extension, folding, remainder, field)", q, p), "differs": false}));
+                }
+            } else {
+                seen.insert(sd, p.clone());
+            }
+        }
+    }
+    out.push(json!({"param": format!("{} contexts", n), "differs": n >= 100}));
+    out
+}
+
 pub struct Transcript {
     pub out: Vec<String>,
 }
@@ -495,7 +610,7 @@ impl Job for Transcript {
         };
         self.out.push(json!({"ev": "begin", "id": sc.id, "t": st, "expected": exp, "nonce": proof.pow_nonce.to_le_bytes().to_vec(),
             "lde": proof.context.lde_domain_size(), "unique": proof.num_unique_queries,
-            "meta": proof.context.trace_info().meta().to_vec(), "pub": pub_bytes}).to_string());
+            "meta": proof.context.trace_info().meta().to_vec(), "pub": pub_bytes, "binding": seed_binding::<B>(sc)}).to_string());
         for (role, log) in [("P", &plog), ("V", &vlog)] {
             let mut nclz = 0usize;
             for (i, c) in log.iter().enumerate() {
